@@ -75,6 +75,25 @@ func TestC03(t *testing.T) {
 
 	executed := map[string]bool{}
 	caseIdx := 0
+	// conformance replay against the real binary: one server per write mode on the same tree
+	var rep [2]*binReplayer
+	if binPath() != "" {
+		for i, allow := range []bool{false, true} {
+			br, err := startReplayer(cw.w.Root, cw.w.Dir, binLogDir("C03"), allow)
+			if err != nil {
+				r.HarnessError("cannot start the real binary for conformance replay: " + err.Error())
+				return
+			}
+			rep[i] = br
+			defer br.Stop()
+			defer os.RemoveAll(binLogDir("C03"))
+		}
+	}
+	slice := 23
+	if r.Thorough() {
+		slice = 3
+	}
+	nrun := 0
 	runOne := func(allow bool, seq []Req, d Delivery) {
 		mut := false
 		for _, q := range seq {
@@ -106,6 +125,22 @@ func TestC03(t *testing.T) {
 		}
 		if res.Why != "" {
 			r.Violation("C03:"+res.WhySig, res.Why, map[string]any{"allow_write": allow, "requests": seq, "delivery": d, "steps": res.Steps})
+			return
+		}
+		nrun++
+		bi := 0
+		if allow {
+			bi = 1
+		}
+		if rep[bi] != nil && d == (Delivery{}) && (nrun+int(r.Seed))%slice == 0 {
+			if allow && mut {
+				cw.resetW()
+			}
+			why, sig := rep[bi].replay(newModel(cw.w.Root, allow), seq, lensOf(res.Raw), res.Closed)
+			r.Trace(1)
+			if why != "" {
+				r.Violation("C03:"+sig, "conformance replay on the real binary: "+why, map[string]any{"allow_write": allow, "requests": seq})
+			}
 		}
 	}
 
